@@ -375,6 +375,26 @@ fn one_case(rep: &mut Report, model: &mut Model, rng: &mut Rng, case_no: u64, si
     drop(store);
     let base = scratch.path().join("base");
     copy_dir(&data_dir, &base);
+    // ---- the thread index is lost: the default thread must be recovered from the log
+    {
+        let dir = scratch.path().join("noindex");
+        copy_dir(&base, &dir);
+        let _ = std::fs::remove_file(dir.join("continuities").join("index.json"));
+        let (_l, s) = open(&dir, &ws);
+        let got = s.ensure_default().ok();
+        rep.count("index_loss_rounds");
+        if with_child {
+            rep.count("index_loss_rounds_with_branch_child");
+        }
+        if got.as_deref() != Some(thread.as_str()) {
+            rep.oracle_failure(
+                if with_child { "C04|default-thread|index.json-lost|branch-child-exists" } else { "C04|default-thread|index.json-lost" },
+                &format!("after losing continuities/index.json the default thread is {got:?}, before it was {thread}"),
+                json!({"case": case_no, "branch_child": with_child}),
+            );
+        }
+        let _ = std::fs::remove_dir_all(&dir);
+    }
     for (ri, (faults, append_after)) in rounds.iter().enumerate() {
         // start every round from the unfaulted directory
         let dir = scratch.path().join(format!("round{ri}"));
